@@ -1,4 +1,5 @@
 import XjsModel.Proofs.ParserTokensPass
+import XjsModel.Proofs.CommentsChain
 /-
   C12 — Strict mode never silently accepts malformed programs.
 
@@ -174,8 +175,36 @@ example : F ((Stmt.exprS (.binary { type := .plus, lit := [43], sl := 0, sc := 1
     (.ident { tok := { type := .ident, lit := [97], sl := 0, sc := 0, el := 0, ec := 1 }, value := [97] }) [43]
     (.int { type := .int, lit := [49], sl := 0, sc := 2, el := 0, ec := 3 }))).flat) = [.ident, .plus, .int] := by decide
 
+/-! ### nothing invented, as full token records -/
+
+/-- the tokens a tree may store: those of the input; beyond them only the repeat of the last one as end of input
+    (trivia cleared), the end token of an empty input, and Go's zero token (the unrecorded closing brace of `{}`) -/
+def FromInput (toks : List Token) (t : Token) : Prop :=
+  t ∈ toks ∨ t = dummyTok ∨ t = zeroTok ∨ ∃ u ∈ toks, t = eofAgain u
+
+theorem fromInput_closed (toks : List Token) : Closed (FromInput toks) := by
+  refine ⟨Or.inr (Or.inl rfl), Or.inr (Or.inr (Or.inl rfl)), ?_⟩
+  intro t ht
+  rcases ht with h | h | h | ⟨u, hu, h⟩
+  · exact Or.inr (Or.inr (Or.inr ⟨t, h, rfl⟩))
+  · subst h; exact Or.inr (Or.inl rfl)
+  · subst h; exact Or.inr (Or.inr (Or.inl rfl))
+  · subst h; exact Or.inr (Or.inr (Or.inr ⟨u, hu, rfl⟩))
+
+/-- every token stored anywhere in the returned tree — positions, literal, after-newline flag and leading comments
+    included — is a token of the input (or one of the three end markers): for every token list, mode, table and
+    interceptor chain, whatever errors were reported -/
+theorem tree_tokens_come_from_the_input (cfg : PCfg) (toks : List Token) (r : ParseResult)
+    (h : parseProgram cfg toks = some r) : r.prog.allT (FromInput toks) :=
+  prov_parseProgram cfg _ (fromInput_closed toks) toks r h (fun _ ht => Or.inl ht)
+
+/-! Non-vacuity: `allT` of a one-statement tree says its token is an input token -/
+example (toks : List Token) (t : Token) (h : (StmtList.cons (.exprS (.int t)) .nil).allT (FromInput toks)) :
+    FromInput toks t := by simpa [StmtList.allT, Stmt.allT, Expr.allT] using h
+
 end Xjs.C12
 
 #print axioms Xjs.C12.accepted_text_is_the_tree
 #print axioms Xjs.C12.nothing_skipped
 #print axioms Xjs.C12.illegal_is_no_prefix_token
+#print axioms Xjs.C12.tree_tokens_come_from_the_input
